@@ -52,7 +52,9 @@ def run(ctx):
         try:
             sims = ss.multi_run(make_sim(kind, base), n_runs=n_runs, shrink=False, **mkw)
         except Exception as E:
-            viol(f'{kind}: multi_run({mname}, n_runs={n_runs}) raised {type(E).__name__}: {E}', W); continue
+            w_ = dict(W)
+            if type(E).__name__ == 'AlreadyRunError' and mname == 'parallel-1': w_['finding_key'] = 'multi-run-with-one-cpu-reuses-the-sim'      # sc.parallelize with one CPU shares the sim object between replicates
+            viol(f'{kind}: multi_run({mname}, n_runs={n_runs}) raised {type(E).__name__}: {E}', w_); continue
         if len(sims) != n_runs: viol(f'{kind}: multi_run returned {len(sims)} sims for n_runs={n_runs}', W)
         for i, s in enumerate(sims):
             ctx.count((kind, base, mname, i), nontrivial=True); ctx.dist('member of multi_run ' + mname)
